@@ -15,7 +15,8 @@ def classify_outcome(exc):
     if desc['type'] == 'ValueError' and 'max() iterable argument is empty' in msg or (
             desc['type'] == 'ValueError' and 'arg is an empty sequence' in msg):
         return 'main-body-single-interval', desc
-    if desc['type'] == 'AssertionError' and desc['site'] and desc['site'][0] == 'get_series_time_offsets':
+    if desc['type'] in ('AssertionError', 'IndexError') and desc['site'] and desc['site'][0] == 'get_series_time_offsets':
+        # (IndexError: the same situation when assert statements are compiled away, python -O)
         # no interval crosses any grid level: there is no curve to assemble
         # (len(head_mappings) == 1 fails on an empty component list)
         return 'refusal:no-level-crossed', desc
